@@ -95,6 +95,24 @@ func streamScript(t *testing.T, name string, mk func() connPair) []string {
 	time.Sleep(30 * time.Millisecond)
 	p.server.Close()
 	rec("%s", <-done)
+	// 6. writes to a peer that never reads are accepted for a while, then block, and fail at the write deadline
+	q := mk()
+	q.server.SetWriteDeadline(time.Now().Add(300 * time.Millisecond))
+	total := 0
+	var werr error
+	chunk := make([]byte, 64<<10)
+	for i := 0; i < 4096 && werr == nil; i++ {
+		var k int
+		k, werr = q.server.Write(chunk)
+		total += k
+	}
+	rec("write until blocked, with a write deadline -> some bytes accepted: %v, then %s", total > 0, errClass(werr))
+	_, werr = q.server.Write(chunk[:1])
+	rec("write after the deadline -> %s", errClass(werr))
+	q.server.Close()
+	_, werr = q.server.Write(chunk[:1])
+	rec("write after close -> %s", errClass(werr))
+	q.lis.Close()
 	// 5. Accept is released by closing the listener
 	go func() {
 		_, err := p.lis.Accept()
@@ -118,9 +136,11 @@ func packetScript(t *testing.T, mk func() (net.PacketConn, func([]byte))) []stri
 		rec("readfrom(%d) -> %q %s", size, b[:n], errClass(err))
 	}
 	send([]byte("one\n"))
+	send([]byte{}) // an empty datagram is a datagram: a 0-byte read without an error
 	send([]byte("two\nthree\n"))
 	send([]byte("a-long-datagram\n"))
 	time.Sleep(30 * time.Millisecond)
+	readFrom(64)
 	readFrom(64)
 	readFrom(64)
 	readFrom(6) // truncated
@@ -170,7 +190,7 @@ func TestSimnetConformance(t *testing.T) {
 			return connPair{server: <-acc, write: func(b []byte) { cl.Write(b) }, close: func() { cl.Close() }, lis: l}
 		}
 	}
-	sn := &simNet{lis: map[string]*simListener{}, pcs: map[string]*simPacketConn{}}
+	sn := &simNet{lis: map[string]*simListener{}, pcs: map[string]*simPacketConn{}, outCap: 4096}
 	simStream := func() connPair {
 		n++
 		addr := fmt.Sprintf("sim:%d", n)
